@@ -464,3 +464,88 @@ Proof.
   intros C T' method path P. unfold find_route. apply perm_invariant_at; [|exact P].
   apply certificate_sound, C.
 Qed.
+
+(* ------------------------------------------------------------------ a fast evaluator, equal to explore *)
+(* vm_compute is call-by-value: everything that depends on the table only (segment lists of the
+   endpoints, method classes, alphabets per position, saturation depth) is computed once and passed
+   along. *)
+Record pr := mkPr { pr_r : route; pr_eps : list str; pr_glob : bool; pr_root : bool }.
+Definition prep1 (r : route) : pr :=
+  mkPr r (ep_parts (ep r)) (existsb is_glob (ep_parts (ep r))) (is_root r).
+Definition prep (T : list route) : list pr := map prep1 T.
+Definition pat_p (ps : list str) (x : pr) : bool :=
+  pr_root x || (if pr_glob x then glob_ok (pr_eps x) ps else nonglob_ok (pr_eps x) ps).
+Definition may_p (ps : list str) (x : pr) : bool :=
+  pr_root x || (if pr_glob x then glob_pre (pr_eps x) ps else nonglob_ok (pr_eps x) ps).
+Definition sel (f : pr -> bool) (P : list pr) : list route := map pr_r (filter f P).
+
+Definition det_all_f (MC : list str) (P : list pr) (ps : list str) : bool :=
+  let A := sel (pat_p ps) P in forallb (fun m => det (mfilter m A) ps) MC.
+Definition ok_f MC P ps : bool := if shape ps then det_all_f MC P ps else true.
+Definition quiet_f (MC : list str) (P : list pr) (ps : list str) : bool :=
+  let A := sel (may_p ps) P in forallb (fun m => (length (mfilter m A) <=? 1)%nat) MC.
+Definition final_f (NS : N) MC P ps : bool :=
+  if NS <=? N.of_nat (length ps) then det_all_f MC P ps else false.
+
+Fixpoint explore_f (NS : N) (MC : list str) (P : list pr) (sgs : list (list str)) (ps : list str) : bool :=
+  if ok_f MC P ps then
+    if quiet_f MC P ps then true
+    else match sgs with
+         | [] => final_f NS MC P ps
+         | sg :: rest => forallb (fun a => explore_f NS MC P rest (ps ++ [a])) sg
+         end
+  else false.
+
+Definition certificate_f (T : list route) : bool :=
+  if fresh_ok T && negb (memS FRESHM (map meth T))
+  then explore_f (nsat T) (mclasses T) (prep T) (map (sigma T) (seq 0 (N.to_nat (nsat T)))) []
+  else false.
+
+Lemma sel_pat T ps : sel (pat_p ps) (prep T) = pat_set T ps.
+Proof.
+  unfold sel, prep, pat_set. induction T as [|r T IH]; [reflexivity|]. cbn [map filter].
+  unfold pat_p at 1. cbn [prep1 pr_root pr_glob pr_eps]. unfold pattern_ok. cbv zeta.
+  destruct (is_root r || (if existsb is_glob (ep_parts (ep r)) then glob_ok (ep_parts (ep r)) ps
+                          else nonglob_ok (ep_parts (ep r)) ps)); cbn [map pr_r prep1]; rewrite IH; reflexivity.
+Qed.
+
+Lemma sel_may T ps : sel (may_p ps) (prep T) = filter (fun r => is_root r || may_match (ep r) ps) T.
+Proof.
+  unfold sel, prep. induction T as [|r T IH]; [reflexivity|]. cbn [map filter].
+  unfold may_p at 1. cbn [prep1 pr_root pr_glob pr_eps]. unfold may_match. cbv zeta.
+  destruct (is_root r || (if existsb is_glob (ep_parts (ep r)) then glob_pre (ep_parts (ep r)) ps
+                          else nonglob_ok (ep_parts (ep r)) ps)); cbn [map pr_r prep1]; rewrite IH; reflexivity.
+Qed.
+
+Lemma ok_f_eq T ps : ok_f (mclasses T) (prep T) ps = ok T ps.
+Proof. unfold ok_f, ok, det_all_f, det_all. cbv zeta. rewrite sel_pat. reflexivity. Qed.
+Lemma quiet_f_eq T ps : quiet_f (mclasses T) (prep T) ps = quiet T ps.
+Proof. unfold quiet_f, quiet. cbv zeta. rewrite sel_may. reflexivity. Qed.
+Lemma final_f_eq T ps : final_f (nsat T) (mclasses T) (prep T) ps = final T ps.
+Proof. unfold final_f, final, det_all_f, det_all. cbv zeta. rewrite sel_pat. reflexivity. Qed.
+
+Lemma forallb_ext_all {A} (f g : A -> bool) l : (forall x, f x = g x) -> forallb f l = forallb g l.
+Proof. intros H. induction l as [|a l IH]; cbn; [reflexivity|]. rewrite H, IH. reflexivity. Qed.
+
+Lemma explore_f_eq T : forall n ps,
+  explore_f (nsat T) (mclasses T) (prep T) (map (sigma T) (seq (length ps) n)) ps = explore T n ps.
+Proof.
+  induction n as [|n IH]; intros ps; cbn [seq map explore_f explore];
+    rewrite ok_f_eq, quiet_f_eq; destruct (ok T ps); try reflexivity; destruct (quiet T ps); try reflexivity.
+  - apply final_f_eq.
+  - apply forallb_ext_all. intros a. rewrite <- IH. rewrite app_length. cbn [length]. rewrite Nat.add_1_r. reflexivity.
+Qed.
+
+Lemma certificate_f_eq T : certificate_f T = certificate T.
+Proof.
+  unfold certificate_f, certificate. destruct (fresh_ok T && negb (memS FRESHM (map meth T))); [|reflexivity].
+  exact (explore_f_eq T (N.to_nat (nsat T)) []).
+Qed.
+
+Theorem certificate_f_sound T : certificate_f T = true ->
+  forall m p, det (cands T (upper m) (split (norm_path p))) (split (norm_path p)) = true.
+Proof. rewrite certificate_f_eq. apply certificate_sound. Qed.
+
+Corollary certificate_f_deterministic T : certificate_f T = true ->
+  forall T' method path, Permutation T T' -> find_route T' method path = find_route T method path.
+Proof. rewrite certificate_f_eq. apply certificate_deterministic. Qed.
